@@ -87,43 +87,59 @@ def lit_only(rng):
     return a
 
 
-def gen_expr(rng, depth):
+def pick_var(rng, bound):
+    """mostly names that are bound at this point of the history, sometimes any name of the pool, rarely a never-bound one"""
+    r = rng.random()
+    if r < 0.8 and bound:
+        return rng.choice(sorted(bound))
+    return rng.choice(NAMES) if r < 0.97 else UNBOUND
+
+
+def gen_expr(rng, depth, bound=()):
     r = rng.random()
     if depth == 0 or r < 0.25:
         if rng.random() < 0.55:
-            return ("var", rng.choice(NAMES if rng.random() < 0.93 else [UNBOUND]))
+            return ("var", pick_var(rng, bound))
         return ("lit", rng.choice([0, 1, 2, 3, 5, 10, 1000]))
     if r < 0.7:
         op = rng.choice(["BAdd", "BSub", "BMul", "BDiv"])
-        a = gen_expr(rng, depth - 1)
+        a = gen_expr(rng, depth - 1, bound)
         # divisors are literal-only (no division by a float-tainted variable: rounding would decide ZeroDivision)
-        b = lit_only(rng) if op == "BDiv" else gen_expr(rng, depth - 1)
+        b = lit_only(rng) if op == "BDiv" else gen_expr(rng, depth - 1, bound)
         return ("bin", op, a, b)
     if r < 0.8:
         return ("call1", "sin", ("lit", 0))
     if r < 0.9:
-        return ("call2", rng.choice(["max", "max", "min"]), gen_expr(rng, depth - 1), gen_expr(rng, depth - 1))
-    return ("call1", rng.choice(["abs", "floor", "sin"]), gen_expr(rng, depth - 1))
+        return ("call2", rng.choice(["max", "max", "min"]), gen_expr(rng, depth - 1, bound), gen_expr(rng, depth - 1, bound))
+    return ("call1", rng.choice(["abs", "floor", "sin"]), gen_expr(rng, depth - 1, bound))
 
 
-def gen_top_expr(rng):
+def gen_top_expr(rng, bound=()):
     r = rng.random()
     if r < 0.12:
-        mag = ("lit", rng.choice([2, 3, 10])) if rng.random() < 0.6 else ("var", rng.choice(["x", "y", "m", "e"]))
+        mag = ("lit", rng.choice([2, 3, 10])) if rng.random() < 0.6 else ("var", pick_var(rng, bound))
         return ("qty", mag, rng.choice(["m", "m", "km", "s"]))
     if r < 0.24:
         v = rng.choice(["x", "y", "m", "e", "k"])
-        body = rng.choice([("bin", "BMul", ("var", v), ("lit", 2)), ("bin", "BAdd", ("var", v), ("var", rng.choice(NAMES))), ("var", v),
+        body = rng.choice([("bin", "BMul", ("var", v), ("lit", 2)), ("bin", "BAdd", ("var", v), ("var", pick_var(rng, bound))), ("var", v),
                            ("call2", "max", ("var", v), ("lit", 2))])
         lo = rng.choice([0, 1, 1, 2])
         return ("comp", body, v, lo, lo + rng.choice([-1, 0, 1, 2, 3]))
-    return gen_expr(rng, rng.choice([0, 1, 2, 2, 3]))
+    return gen_expr(rng, rng.choice([0, 1, 2, 2, 3]), bound)
 
 
-def gen_stmt(rng):
+def gen_stmt(rng, bound):
+    """bound: the names bound so far in this history if every earlier statement succeeds (updated)"""
     if rng.random() < 0.6:
-        return ("assign", rng.choice(NAMES), gen_top_expr(rng))
-    return ("expr", gen_top_expr(rng))
+        s = ("assign", rng.choice(NAMES), gen_top_expr(rng, bound))
+    else:
+        s = ("expr", gen_top_expr(rng, bound))
+    e = s[2] if s[0] == "assign" else s[1]
+    if e[0] == "comp" and e[4] >= e[3]:
+        bound.add(e[2])
+    if s[0] == "assign":
+        bound.add(s[1])
+    return s
 
 
 FAILING = [
@@ -137,8 +153,9 @@ FAILING = [
 
 
 def gen_history(rng, n):
-    ss = [gen_stmt(rng) for _ in range(n)]
-    if rng.random() < 0.6:
+    bound = {"pi", "e", "true", "false"}
+    ss = [gen_stmt(rng, bound) for _ in range(n)]
+    if rng.random() < 0.5:
         ss[rng.randrange(n)] = rng.choice(FAILING)
     return ss
 
@@ -519,7 +536,7 @@ def run(ctx):
 
     rep.coverage.update(dict(
         evaluations=stats["split_runs"] + stats["hist_inputs"], distinct_nontrivial=len(nontrivial),
-        rule="statement lists: a fixed corpus (%d), every sequence of length 1-3 over %d small statements (%d), and seeded random histories of 1-12 statements over the names %s (assignments, reads, arithmetic, calls and quantities through shadowed names, comprehensions, one failing statement with probability 0.6); each list entered as one input and cut into successive inputs in every way when it has <= %d statements (all 2^(n-1) cuts), otherwise all-in-one, one-by-one and sampled cuts; then interleaved with a second session's inputs and compared with the model. non-trivial = a history of at least two statements; distinct by the rendered inputs" % (
+        rule="statement lists: a fixed corpus (%d), every sequence of length 1-3 over %d small statements (%d), and seeded random histories of 1-12 statements over the names %s (assignments, reads, arithmetic, calls and quantities through shadowed names, comprehensions, reads biased to names bound earlier in the history, one deliberately failing statement with probability 0.5); each list entered as one input and cut into successive inputs in every way when it has <= %d statements (all 2^(n-1) cuts), otherwise all-in-one, one-by-one and sampled cuts; then interleaved with a second session's inputs and compared with the model. non-trivial = a history of at least two statements; distinct by the rendered inputs" % (
             len(CORPUS), len(SMALL), 13 + 169 + 2197, ",".join(NAMES), exh_n),
         exhaustive=False, samples=samples, outcome_histogram=hist_out, stats=stats,
         traces_validated_against_impl=stats["outcomes_compared"], kernel_lane_cases=len(model) if model else 0))
